@@ -151,3 +151,21 @@ Proof.
   assert (Hk : n / 3 < 0) by (apply Z.div_lt_upper_bound; lia).
   apply Z.ltb_lt in Hk. unfold float_isqrt_f. rewrite Hk. reflexivity.
 Qed.
+
+Theorem standard_dims_f_gas_correct : forall gas n,
+  standard_system_dimensions_f_gas gas n <> OutOfFuel ->
+  standard_system_dimensions_f_gas gas n = standard_system_dimensions_f n.
+Proof.
+  intros gas n. unfold standard_system_dimensions_f_gas, standard_system_dimensions_f.
+  destruct (n =? 0); [reflexivity|]. destruct (n =? 1); [reflexivity|].
+  destruct (negb (n mod 3 =? 0)); [reflexivity|]. cbv zeta.
+  destruct (float_isqrt_f (n / 3)) as [s | | |] eqn:Es; cbn [bind]; try reflexivity.
+  destruct (first_factor_down_gas (n / 3) s gas) as [r|] eqn:E; [|intros H; contradiction H; reflexivity].
+  intros _.
+  destruct (Z_le_gt_dec 0 s) as [Hs | Hs].
+  - rewrite (first_factor_down_gas_correct _ _ _ _ Hs E). destruct r; reflexivity.
+  - (* a negative count (impossible for a square root, but the statement does not need that) *)
+    destruct gas as [|g]; cbn [first_factor_down_gas] in E; [discriminate|].
+    replace (s <=? 0) with true in E by (symmetry; apply Z.leb_le; lia).
+    injection E as <-. replace (Z.to_nat s) with O by lia. reflexivity.
+Qed.
